@@ -353,8 +353,26 @@ func e3FreeRun(run *h.Run) {
 	}
 	cmd := exec.Command(bin, "freerun", run.Prop, fmt.Sprint(iters))
 	cmd.Env = append(os.Environ(), "GORACE=halt_on_error=1")
-	out, err := cmd.CombinedOutput()
-	text := string(out)
+	var ob bytes.Buffer
+	cmd.Stdout, cmd.Stderr = &ob, &ob
+	cmd.Start()
+	done := make(chan error, 1)
+	go func() { done <- cmd.Wait() }()
+	var err error
+	limit := 300 * time.Second
+	if run.Tier == "thorough" {
+		limit = 1800 * time.Second
+	}
+	select {
+	case err = <-done:
+	case <-time.After(limit):
+		// safety net only, never a verdict: uncontrolled goroutines can hang (e.g. on a leaked lock,
+		// which the controlled exploration reports deterministically as a deadlock)
+		cmd.Process.Kill()
+		run.Cov["free_running_race_pass"] = "did not finish within its safety limit; killed (no verdict)"
+		return
+	}
+	text := ob.String()
 	run.Cov["free_running_race_pass"] = map[string]any{"iterations_per_scenario": iters, "data_race_reported": strings.Contains(text, "DATA RACE")}
 	if strings.Contains(text, "DATA RACE") {
 		i := strings.Index(text, "WARNING: DATA RACE")
